@@ -2039,11 +2039,29 @@ def units(c, rebound, exe, parsed, ref):
     dims = {"m": (0, 0, 1), "x": (1, 0, 0), "y": (1, 0, 0), "z": (1, 0, 0), "r": (1, 0, 0),
             "vx": (1, -1, 0), "vy": (1, -1, 0), "vz": (1, -1, 0), "ax": (1, -2, 0), "ay": (1, -2, 0), "az": (1, -2, 0)}
     ntarget = 5 if c.thorough else 1
+    ELEM_FACTORS = ("size", "phase", "peri", "kind", "primary")
+
+    def u_excluded(f, a, g, b):
+        # how the companion is specified: Cartesian, or orbital elements in one of the spellings Particle.__init__ accepts
+        if f == "add" and g in ELEM_FACTORS:
+            if (a == "cartesian") != (b == "n/a"):
+                return "the element-spelling factors apply to orbital-element input only"
+        if f in ELEM_FACTORS and g in ELEM_FACTORS and (a == "n/a") != (b == "n/a"):
+            return "the element-spelling factors apply to orbital-element input only"
+        if f == "size" and a == "P" and g == "kind" and b == "hyperbolic":
+            return "a hyperbolic orbit has no period"
+        if f == "phase" and a == "pal" and g == "kind" and b == "hyperbolic":
+            return "Pal coordinates (h, k) describe e < 1 only"
+        if f == "phase" and a == "pal" and g == "peri" and b == "pomega":
+            return "Particle.__init__ rejects Pal coordinates together with pomega"
+        return None
     UG = pair_group("units", dict(length=list(Ls), time=list(Ts), mass=list(Ms), add=["cartesian", "elements"], var=["none", "1st"],
                                   nactive=["default", "set"], restore=["none", "archive", "copy", "pickle"],
-                                  target=["different", "alias", "same"], spelling=["tuple", "upper", "dict"]),
-                    lambda f, a, g, b: None)
-    small = PairGroup("units-small", {k: v for k, v in UG.factors.items() if k not in ("length", "time", "mass")}, lambda f, a, g, b: None).array(rng)
+                                  target=["different", "alias", "same"], spelling=["tuple", "upper", "dict"],
+                                  size=["n/a", "a", "P"], phase=["n/a", "f", "M", "E", "T", "l", "theta", "pal"], peri=["n/a", "omega", "pomega"],
+                                  kind=["n/a", "elliptic", "hyperbolic"], primary=["n/a", "default", "explicit"], tadd=["0", "nonzero"]),
+                    u_excluded)
+    small = PairGroup("units-small", {k: v for k, v in UG.factors.items() if k not in ("length", "time", "mass")}, u_excluded).array(rng)
     while len(small) % 17 == 0 or len(small) % 2 == 0 and len(small) < 9:
         small.append(dict(small[0]))          # the row index cycles with the triple index: keep the cycle length coprime to the table sizes
     alias_of = {}
@@ -2096,19 +2114,93 @@ def units(c, rebound, exe, parsed, ref):
                 return dict(m1=float(m1_SI / Mm), m2=float(m2_SI / Mm), a=float(a_SI / L))
             q0 = to_units(exactL[l], exactT[t], exactM[m])
             v_SI = math.sqrt(float(Gq) * float(m1_SI + m2_SI) / float(a_SI))
+            t_add_SI = 0.0 if U_["tadd"] == "0" else 4.1e6            # the simulation time at which the companion is added (T refers to it)
+            sim.t = t_add_SI / Ts[t]
             sim.add(m=q0["m1"], r=float(Fr("7e8") / exactL[l]), hash="primary")
             if U_["add"] == "elements":
-                # the companion given by orbital elements: a in the length unit, uses sim.G of this unit system
-                sim.add(m=q0["m2"], a=q0["a"], e=0.3, inc=0.4, Omega=1.0, omega=2.0, f=0.7, r=float(Fr("7e7") / exactL[l]), hash="companion")
+                # the companion given by orbital elements in one of the spellings of Particle.__init__ (size: a or P; phase: f, M, E,
+                # time of pericentre T, mean longitude l, true longitude theta, or Pal coordinates; pericentre: omega or pomega), all
+                # dimensional arguments in the units of this simulation.  Oracle: the same SI two-body problem solved here
+                # (Kepler's equation by Newton / bisection, Murray-Dermott rotation), independent of REBOUND and of the unit system.
+                hyp = U_["kind"] == "hyperbolic"
+                e_, inc_, Om_, om_ = (1.7 if hyp else 0.3), 0.4, 1.0, 2.0
+                mu_SI = float(Gq) * float(m1_SI + m2_SI)
+                aS = -float(a_SI) if hyp else float(a_SI)
+                n_SI = math.sqrt(mu_SI / abs(aS) ** 3)
+                M_ = 0.9                                               # mean anomaly of the companion at the time it is added
+                if hyp:                                                # e sinh H - H = M
+                    H_ = M_
+                    for _it in range(60):
+                        H_ -= (e_ * math.sinh(H_) - H_ - M_) / (e_ * math.cosh(H_) - 1)
+                    f_ = 2 * math.atan(math.sqrt((e_ + 1) / (e_ - 1)) * math.tanh(H_ / 2))
+                    E_ = H_
+                else:                                                  # E - e sin E = M
+                    E_ = M_
+                    for _it in range(60):
+                        E_ -= (E_ - e_ * math.sin(E_) - M_) / (1 - e_ * math.cos(E_))
+                    f_ = 2 * math.atan(math.sqrt((1 + e_) / (1 - e_)) * math.tan(E_ / 2))
+                kw = dict(m=q0["m2"], e=e_, inc=inc_, Omega=Om_, r=float(Fr("7e7") / exactL[l]), hash="companion")
+                if U_["size"] == "a":
+                    kw["a"] = aS / Ls[l]
+                else:
+                    kw["P"] = (2 * math.pi / n_SI) / Ts[t]
+                if U_["peri"] == "pomega":
+                    kw["pomega"] = Om_ + om_
+                else:
+                    kw["omega"] = om_
+                ph = U_["phase"]
+                if ph == "f":
+                    kw["f"] = f_
+                elif ph == "M":
+                    kw["M"] = M_
+                elif ph == "E":
+                    kw["E"] = E_
+                elif ph == "T":
+                    kw["T"] = (t_add_SI - M_ / n_SI) / Ts[t]           # time of pericentre passage, in the time unit
+                elif ph == "l":
+                    kw["l"] = M_ + Om_ + om_
+                elif ph == "theta":
+                    kw["theta"] = f_ + Om_ + om_
+                else:                                                  # Pal coordinates
+                    for k_ in ("e", "inc", "Omega", "omega", "pomega"):
+                        kw.pop(k_, None)
+                    pw_ = Om_ + om_
+                    kw.update(h=e_ * math.sin(pw_), k=e_ * math.cos(pw_), ix=2 * math.sin(inc_ / 2) * math.cos(Om_), iy=2 * math.sin(inc_ / 2) * math.sin(Om_), l=M_ + pw_)
+                if U_["primary"] == "explicit":
+                    kw["primary"] = sim.particles[0]
+                sim.add(**kw)
+                ep("Particle.__init__(orbital elements)")
                 dim("units: particles added by orbital elements")
+                # SI state of the companion relative to the primary
+                rr_ = aS * (1 - e_ * e_) / (1 + e_ * math.cos(f_))
+                v0_ = math.sqrt(mu_SI / (aS * (1 - e_ * e_)))
+                xo, yo, vxo, vyo = rr_ * math.cos(f_), rr_ * math.sin(f_), -v0_ * math.sin(f_), v0_ * (e_ + math.cos(f_))
+                cO, sO, ci, si, co, so = math.cos(Om_), math.sin(Om_), math.cos(inc_), math.sin(inc_), math.cos(om_), math.sin(om_)
+                Pm = [[cO * co - sO * so * ci, -cO * so - sO * co * ci], [sO * co + cO * so * ci, -sO * so + cO * co * ci], [so * si, co * si]]
+                want_x = [Pm[a_][0] * xo + Pm[a_][1] * yo for a_ in range(3)]
+                want_v = [Pm[a_][0] * vxo + Pm[a_][1] * vyo for a_ in range(3)]
+                p0_, p1_ = sim.particles[0], sim.particles[1]
+                got_x = [(getattr(p1_, k_) - getattr(p0_, k_)) * Ls[l] for k_ in ("x", "y", "z")]
+                got_v = [(getattr(p1_, k_) - getattr(p0_, k_)) * Ls[l] / Ts[t] for k_ in ("vx", "vy", "vz")]
+                ex_ = max(abs(a_ - b_) for a_, b_ in zip(got_x, want_x)) / abs(aS)
+                ev_ = max(abs(a_ - b_) for a_, b_ in zip(got_v, want_v)) / math.sqrt(mu_SI / abs(aS))
+                note("elements_in_units_SI_state", max(ex_, ev_))
+                if not max(ex_, ev_) <= 1e-11:
+                    fails.append(("units-elements:%s/%s" % (U_["size"], U_["phase"]),
+                                  "a companion added by orbital elements (%s, %s, %s, %s, primary %s, t=%g) in units %r is not the SI orbit: relative error %.3g"
+                                  % (U_["size"], U_["phase"], U_["peri"], U_["kind"], U_["primary"], sim.t, (l, t, m), max(ex_, ev_)),
+                                  dict(units=(l, t, m), G=sim.G, t=sim.t, kwargs={k_: (v_ if not hasattr(v_, "m") else "particles[0]") for k_, v_ in kw.items()},
+                                       got_SI=got_x + got_v, want_SI=want_x + want_v)))
             else:
                 sim.add(m=q0["m2"], x=q0["a"], vy=float(Fr(v_SI) * exactT[t] / exactL[l]), r=float(Fr("7e7") / exactL[l]), hash="companion")
             hashes0 = [pp.hash.value for pp in sim.particles]
             if U_["nactive"] == "set":
                 sim.N_active = 1
-            sim.t = 5.0; sim.dt = 0.25
+            t_before_convert = sim.t
+            sim.dt = 0.25
             sim.particles[1].ax = float(Fr("-5.9e-3") * exactT[t] ** 2 / exactL[l])   # some acceleration to convert
-            P1 = sim.particles[1].orbit(primary=sim.particles[0]).P * Ts[t]
+            hyp_case = U_.get("kind") == "hyperbolic"
+            P1 = abs(sim.particles[1].orbit(primary=sim.particles[0]).P) * Ts[t]      # |P| = 2 pi sqrt(|a|^3/mu) also for the hyperbola
             e = abs(P1 - Pw) / Pw
             note("period_SI_invariance", e)
             if not e <= 1e-12:
@@ -2175,7 +2267,7 @@ def units(c, rebound, exe, parsed, ref):
                     if [pp.hash.value for pp in sim.particles][:2] != hashes0[:2] or sim.N_active != (1 if U_["nactive"] == "set" else -1):
                         fails.append(("units-convert-identity", "convert_particle_units changed particle hashes or N_active", dict(frm=(l, t, m), to=(l2, t2, m2))))
                     # t and dt are NOT converted although the time unit changes (only particles and G are, as the docstring says): recorded
-                    c.cov["convert_particle_units_leaves_t_and_dt_unconverted"] = bool(sim.t == 5.0 and sim.dt == 0.25)
+                    c.cov["convert_particle_units_leaves_t_and_dt_unconverted"] = bool(sim.t == t_before_convert and sim.dt == 0.25)
                 G2 = Gq * exactM[m2] * exactT[t2] ** 2 / exactL[l2] ** 3
                 if not abs(float((Fr(sim.G) - G2) / G2)) <= 4e-15 or sim.units != {"length": l2, "time": t2, "mass": m2}:
                     fails.append(("units-convert-G", "after convert_particle_units(%r) G / units are not those of the new system" % ((l2, t2, m2),), dict(frm=(l, t, m), to=(l2, t2, m2), G=sim.G, units=sim.units)))
@@ -2193,7 +2285,7 @@ def units(c, rebound, exe, parsed, ref):
                 if not worst_e <= 2e-15:
                     fails.append(("units-convert-values", "convert_particle_units %r -> %r differs from the exact conversion by %.3g" % ((l, t, m), (l2, t2, m2), worst_e),
                                   dict(frm=(l, t, m), to=(l2, t2, m2), before=before, after=mid)))
-                P2 = sim.particles[1].orbit(primary=sim.particles[0]).P * Ts[t2]
+                P2 = abs(sim.particles[1].orbit(primary=sim.particles[0]).P) * Ts[t2]
                 e = abs(P2 - Pw) / Pw
                 note("period_SI_invariance", e)
                 if not e <= 1e-12:
